@@ -16,7 +16,8 @@ def main():
     t0 = time.time()
     try:
         vlib.build_lean()
-        print('lean project built (%.0fs)' % (time.time() - t0))
+        r = vlib.sh(['lake', 'build'], cwd=vlib.LEAN_DIR)     # every theorem module, so that the checks only re-check
+        print('lean project built (%.0fs)%s' % (time.time() - t0, '' if r.returncode == 0 else ' — WARNING: some module does not build'))
         t1 = time.time()
         vlib.build_world_harness()
         print('world harness built (%.0fs)' % (time.time() - t1))
